@@ -135,8 +135,9 @@ def twin_records(ctx, rng):
             sid = 800 + n
             first = {"t": t, "j": 0, "op": "rx", "src": "a2", "mc": mc, "sid": sid, "rb": True, "uc": True, "es": es}
             gap = rng.choice([0, 0, 1, 2])
-            again = sdenv.build_sd(es, True, sid + 1, uc=False)
-            empty = sdenv.build_sd([], True, sid + 1, uc=False)
+            sid2 = sid + rng.choice([1, 1, 0, -5])       # (same or smaller session id with the flag set: reboot evidence as well)
+            again = sdenv.build_sd(es, True, sid2, uc=False)
+            empty = sdenv.build_sd([], True, sid2, uc=False)
             sched2 = sorted(sched + [first], key=lambda i: (i["t"], i.get("j", 0)))
             a, exa = run_twin(sched2, (t + gap, 3, again, "a2", mc))
             b, exb = run_twin(sched2, (t + gap, 3, empty, "a2", mc))
